@@ -62,9 +62,9 @@ def run(check, an: Analysis):
                            'suspensions after the pop: %d; the popped value is what is '
                            'returned: %s' % (len(later), returned),
                            path=rules.path_lines(path, index))
-    if n_pop < 2:
-        raise AnalysisError('Queue._await_message: expected the buffered and the waiting '
-                            'pop, found %d' % n_pop)
+    check.instance('W', 'receive:takes-buffered-and-awaited', n_pop >= 2, where_fn(recv.fn),
+                   'the receive path pops both on the buffered and on the waiting branch '
+                   '(%d pops on %d paths)' % (n_pop, len(recv_paths)), analysed=len(recv_paths))
     # __await__ delegates to _await_message and returns its value
     for path in an.paths(await_):
         if path.kind == 'return':
@@ -86,8 +86,8 @@ def run(check, an: Analysis):
                 check.instance('D', 'put:append-only-open', open_ is False, event.where,
                                'append dominated by `self._closed` being false (fact=%s)'
                                % open_, path=rules.path_lines(path, index))
-    if n_append == 0:
-        raise AnalysisError('Queue.put never appends to the buffer')
+    check.instance('D', 'put:appends', n_append > 0, where_fn(put.fn),
+                   'put stores the item in the buffer')
     closed_raise = [p for p in an.paths(put) if p.kind == 'raise'
                     and p.outcome[1].cls == CLOSED]
     check.instance('D', 'put:closed-raises', bool(closed_raise) and all(
@@ -108,8 +108,9 @@ def run(check, an: Analysis):
                                empty or handler, event.where,
                                'StreamClosed raised on evidence of an empty buffer (%s)'
                                % how, path=rules.path_lines(path, index))
-    if n_raise < 2:
-        raise AnalysisError('Queue._await_message: StreamClosed raise sites not found')
+    check.instance('D', 'recv:closed-reported', n_raise >= 2, where_fn(recv.fn),
+                   'a closed and empty queue raises StreamClosed both on entry and after '
+                   'waiting (%d raise sites reached)' % n_raise)
     # ---- K ------------------------------------------------------------------
     for path in an.paths(close):
         for index, event in enumerate(path.events):
@@ -210,8 +211,7 @@ def run(check, an: Analysis):
             check.instance('I', 'ends-only-on-StreamClosed', ended, where_fn(aiter.fn),
                            'iteration ends only through the StreamClosed handler',
                            path=rules.path_lines(path))
-    if n_yield == 0:
-        raise AnalysisError('Queue.__aiter__ never yields')
+    check.instance('I', 'yields', n_yield > 0, where_fn(aiter.fn), 'iteration yields items')
     check.stats.update(an.stats())
 
 
